@@ -25,6 +25,7 @@ U = "selfies/utils/encoding_utils.py"
 C = "selfies/compatibility.py"
 K = "selfies/constants.py"
 K_MATCH = "selfies/utils/matching_utils.py"
+SU_ = "selfies/utils/selfies_utils.py"
 
 
 def op(name, expect, edits, rules=()):
@@ -48,6 +49,7 @@ BENIGN = [
 
 OPS = {
     "C01": [
+        op("kekulize-recounts-from-adjacency", "fire", [(M, "            self._bond_counts[node] = int(self._bond_counts[node])", "            self._bond_counts[node] = sum(b.order for b in self._adj_list[node])")], ["V6"]),
         op("start-state-1", "fire", [(D, "            init_state=0,\n            root_atom=None,", "            init_state=1,\n            root_atom=None,")], ["V0"]),
         op("root-atom-extra-budget", "fire", [(G, "    bonds_left = bond_cap - bond_order\n    next_state = None if (bonds_left == 0) else bonds_left\n    return bond_order, next_state\n\n\ndef next_branch_state",
                                               "    bonds_left = bond_cap - bond_order + (state == 0)\n    next_state = None if (bonds_left == 0) else bonds_left\n    return bond_order, next_state\n\n\ndef next_branch_state")], ["V2", "V1"]),
@@ -68,6 +70,8 @@ OPS = {
                                                "    return _current_constraints.get(key) or _current_constraints[\"?\"]")], ["V7"]),
     ],
     "C02": [
+        op("slot-counter-advances-on-bond-upgrade", "fire", [(D, "            rings_made[lidx] += 1\n            rings_made[ridx] += 1", "        rings_made[lidx] += 1\n        rings_made[ridx] += 1")], ["T9"]),
+        op("derivation-under-reports-consumed", "fire", [(D, "            break\n\n    return n_derived\n", "            break\n\n    return min(n_derived, max_derive)\n")], ["T11"]),
         op("start-state-1", "fire", [(D, "            init_state=0,\n            root_atom=None,", "            init_state=1,\n            root_atom=None,")], ["T0"]),
         op("ring-dispatch-misaligned", "fire", [(D, '        elif "ng" == symbol[-4:-2]:', '        elif "ng" == symbol[-5:-3]:')], ["T7"]),
         op("atom-budget-not-spent", "fire", [(G, "    bonds_left = bond_cap - bond_order\n    next_state = None if (bonds_left == 0) else bonds_left\n    return bond_order, next_state\n\n\ndef next_branch_state",
@@ -88,6 +92,7 @@ OPS = {
                                                "    if atom.bonding_capacity < 0:\n        _PROCESS_ATOM_CACHE[symbol] = (bond_info, None)\n        return None")], ["T8"]),
     ],
     "C03": [
+        op("roots-as-set", "fire", [(M, "        self._roots = list()", "        self._roots = set()"), (M, "            self._roots.append(atom.index)", "            self._roots.add(atom.index)")], ["R10"]),
         op("ring-arity-capped", "fire", [(E, "                    _ring_bonds_to_selfies(rev_bond, bond),\n                    len(Q_as_symbols)\n", "                    _ring_bonds_to_selfies(rev_bond, bond),\n                    min(len(Q_as_symbols), 2)\n")], ["R4"]),
         op("encoder-own-atom-printer", "fire", [(E, '    return "[{}{}]".format(bond_char, atom_to_smiles(atom, brackets=False))',
                                                   '    body = atom.element + ("" if atom.charge == 0 else "{:+}".format(atom.charge))\n    return "[{}{}]".format(bond_char, body)')], ["R5"]),
@@ -146,6 +151,7 @@ OPS = {
         op("failure-tested-with-if-else", "silent", [(E, "    if not mol.kekulize():\n        err_msg = \"kekulization failed\\n\\tSMILES: {}\".format(smiles)\n        raise EncoderError(err_msg)\n", "    if mol.kekulize():\n        pass\n    else:\n        err_msg = \"kekulization failed\\n\\tSMILES: {}\".format(smiles)\n        raise EncoderError(err_msg)\n")]),
     ],
     "C06": [
+        op("kekulize-recounts-from-adjacency", "fire", [(M, "            self._bond_counts[node] = int(self._bond_counts[node])", "            self._bond_counts[node] = sum(b.order for b in self._adj_list[node])")], ["Q1"]),
         op("setter-keeps-callers-dict", "fire", [(B, "        _current_constraints = dict(bond_constraints)", "        _current_constraints = bond_constraints")], ["Q4"]),
         op("ge-comparator", "fire", [(E, "        if bond_count > bond_cap:", "        if bond_count >= bond_cap:")], ["Q1"]),
         op("format-no-sign", "fire", [(B, '        key += "{:+}".format(charge)', '        key += "{}".format(charge)')], ["Q2"]),
@@ -156,6 +162,7 @@ OPS = {
         op("break-after-first-error", "silent", [(E, "            errors.append((atom_to_smiles(atom), bond_count, bond_cap))", "            errors.append((atom_to_smiles(atom), bond_count, bond_cap))\n            break")]),
     ],
     "C07": [
+        op("ring-formation-ignores-right-capacity", "fire", [(D, "        order = min(order, lfree, rfree)", "        order = min(order, lfree)")], ["A6"]),
         op("setter-keeps-callers-dict", "fire", [(B, "        _current_constraints = dict(bond_constraints)", "        _current_constraints = bond_constraints")], ["A4"]),
         op("isnumeric-keys", "fire", [(B, '''                valid = ((key[:j] in ELEMENTS) and c.isascii() and c.isdigit()
                          and (c[0] != "0"))''', "                valid = (key[:j] in ELEMENTS) and c.isnumeric()")], ["A1"]),
@@ -165,6 +172,8 @@ OPS = {
         op("drop-alphabet-clear", "fire", [(B, "    get_semantic_robust_alphabet.cache_clear()", "    pass")], ["A4"]),
     ],
     "C08": [
+        op("attribution-of-unbound-atom", "fire", [(D, "                if state == 0:\n                    o = mol.add_atom(atom, True)\n                    mol.add_attribution(\n                        o,  attribute_stack +\n                        [Attribution(index + attribution_index, symbol)]\n                        if attribute_stack is not None else None)",
+                                                         "                if state == 0:\n                    o = mol.add_atom(atom, True)\n                mol.add_attribution(\n                    o,  attribute_stack +\n                    [Attribution(index + attribution_index, symbol)]\n                    if attribute_stack is not None else None)")], ["X-unbound"]),
         op("ring-guard-lt0", "fire", [(D, "            if state == 0:\n                next_state = state\n            else:\n                ring_order, next_state", "            if state < 0:\n                next_state = state\n            else:\n                ring_order, next_state")], ["X-assert"]),
         op("index-reader-wrong-except", "fire", [(D, "        except StopIteration:\n            index_symbols.append(None)", "        except KeyError:\n            index_symbols.append(None)")], ["X-next"]),
         op("no-valueerror-conversion", "fire", [(D, "    except ValueError as err:\n        raise DecoderError(str(err)) from None", "    except KeyError as err:\n        raise DecoderError(str(err)) from None")], ["X-explicit"]),
@@ -178,6 +187,9 @@ OPS = {
                                          "    return _current_constraints.setdefault(key, _current_constraints[\"?\"])")], ["NW"]),
     ],
     "C09": [
+        op("sorted-attribution-maps", "fire", [(E, "    attribution_maps = [a for a in attribution_maps if a.token]", "    attribution_maps = sorted(a for a in attribution_maps if a.token)"),
+                                                (M, "@dataclass\nclass AttributionMap:", "@dataclass(order=True)\nclass AttributionMap:")], ["X-sort"]),
+        op("index-encoder-rejects-large", "fire", [(G, "    if index < 0:\n        raise IndexError()", "    if not (0 <= index < len(INDEX_ALPHABET) ** 3):\n        raise IndexError()")], ["EST"]),
         op("greedy-drops-free-degree-guard", "fire", [(K_MATCH, "        if (matching[node] is not None) or (free_degrees[node] == 0):", "        if matching[node] is not None:")], ["EST"]),
         op("new-reachable-assert", "fire", [(E, "                ring_len = bond.src - bond.dst\n", "                ring_len = bond.src - bond.dst\n                assert ring_len > 1\n")], ["X-assert"]),
         op("free-degree-guard-as-lt1", "silent", [(K_MATCH, "        if (matching[node] is not None) or (free_degrees[node] == 0):", "        if (matching[node] is not None) or free_degrees[node] < 1:")]),
@@ -201,6 +213,7 @@ OPS = {
         op("isotope-not-standardised", "fire", [(S, "    isotope = None if (isotope == \"\") else int(isotope)\n    is_aromatic", "    isotope = None if (isotope == \"\") else isotope\n    is_aromatic")], ["L2"]),
     ],
     "C11": [
+        op("recursion-limit-raised-in-call", "fire", [(E, "    if not mol.kekulize():", "    import sys\n    sys.setrecursionlimit(sys.getrecursionlimit() + 1)\n    if not mol.kekulize():")], ["P10"]),
         op("cache-atom-instance", "fire", [(G, "        _PROCESS_ATOM_CACHE[symbol] = output\n", "        _PROCESS_ATOM_CACHE[symbol] = (output[0], output[1]())\n"), (G, "    atom = atom_fac()\n", "    atom = atom_fac() if callable(atom_fac) else atom_fac\n")], ["P2", "P3"]),
         op("drop-memo-clear", "fire", [(B, "    get_bonding_capacity.cache_clear()", "    pass")], ["P4"]),
         op("iterate-str-set", "fire", [(B, "    key = element\n", "    for e in ELEMENTS:\n        pass\n    key = element\n")], ["P7"]),
@@ -210,6 +223,7 @@ OPS = {
         op("module-level-ring-queue", "fire", [(D, "    rings = []\n", "    rings = _RINGS\n"), (D, "def decoder(", "_RINGS = []\n\n\ndef decoder(")], ["P3", "P1"]),
     ],
     "C12": [
+        op("unchanged-entries-skip-validation", "fire", [(B, "        for key, value in bond_constraints.items():\n", "        for key, value in bond_constraints.items():\n            if _current_constraints.get(key) == value:\n                continue\n")], ["G3"]),
         op("falsy-argument-replaced-by-default", "fire", [(B, "    global _current_constraints\n\n    if isinstance(bond_constraints, str):", "    global _current_constraints\n\n    bond_constraints = bond_constraints or \"default\"\n    if isinstance(bond_constraints, str):")], ["G3"]),
         op("return-live-dict", "fire", [(B, "    return dict(_current_constraints)", "    return _current_constraints")], ["G1"]),
         op("store-argument-uncopied", "fire", [(B, "        _current_constraints = dict(bond_constraints)", "        _current_constraints = bond_constraints")], ["G2"]),
@@ -221,6 +235,7 @@ OPS = {
         op("lru-on-preset-getter", "fire", [(B, "def get_preset_constraints(name: str) -> Dict[str, int]:", "@functools.lru_cache()\ndef get_preset_constraints(name: str) -> Dict[str, int]:")], ["G1"]),
     ],
     "C13": [
+        op("recovered-string-cut-at-nop", "fire", [(U, "    selfies = \"\".join(char_list)\n\n    return selfies", "    selfies = \"\".join(char_list)\n\n    return selfies.partition(\"[nop]\")[0]")], ["N3"]),
         op("shared-one-hot-rows", "fire", [(U, "        letter = [0] * len(vocab_stoi)\n        letter[index] = 1", "        letter = _ROWS.setdefault((index, len(vocab_stoi)), [0] * len(vocab_stoi))\n        letter[index] = 1"), (U, "def selfies_to_encoding(", "_ROWS = {}\n\n\ndef selfies_to_encoding(")], ["N3"]),
         op("filter-moved-to-main-loop", "fire", [(D, '            if symbol == "[nop]":\n                continue\n            if compatible:', "            if compatible:"),
                                                   (D, "            index, symbol = next(symbol_iter)\n            n_derived += 1", '            index, symbol = next(symbol_iter)\n            n_derived += 1\n            if symbol == "[nop]":\n                continue')], ["N1"]),
@@ -229,12 +244,15 @@ OPS = {
         op("pad-plus-one", "fire", [(U, '        selfies += "[nop]" * (pad_to_len - len_selfies(selfies))', '        selfies += "[nop]" * (pad_to_len - len_selfies(selfies) + 1)')], ["N3"]),
     ],
     "C14": [
+        op("closing-bracket-search-skips-a-char", "fire", [(SU_, '        right_idx = selfies.find("]", left_idx + 1)', '        right_idx = selfies.find("]", left_idx + 2)')], ["K5"]),
         op("emptiness-probe-consumes-iterator", "fire", [("selfies/utils/selfies_utils.py", "    alphabet = set()\n", "    alphabet = set()\n    if not any(selfies_iter):\n        return alphabet\n")], ["K6"]),
         op("alphabet-cached-alias", "fire", [("selfies/utils/selfies_utils.py", "    alphabet = set()\n    for s in selfies_iter:", "    alphabet = _SEEN\n    for s in selfies_iter:"),
                                              ("selfies/utils/selfies_utils.py", "def get_alphabet_from_selfies(", "_SEEN = set()\n\n\ndef get_alphabet_from_selfies(")], ["K3"]),
         op("fragments-joined-with-space", "fire", [(E, '    result = ".".join(fragments), attribution_maps', '    result = " ".join(fragments), attribution_maps')], ["K1"]),
     ],
     "C15": [
+        op("empty-vectors-skipped", "fire", [(U, "    for flat_one_hot in one_hot_batch:\n", "    for flat_one_hot in one_hot_batch:\n        if not flat_one_hot:\n            continue\n")], ["U4"]),
+        op("recovered-string-cut-at-nop", "fire", [(U, "    selfies = \"\".join(char_list)\n\n    return selfies", "    selfies = \"\".join(char_list)\n\n    return selfies.partition(\"[nop]\")[0]")], ["U7"]),
         op("batch-ignores-pad", "fire", [(U, "        one_hot = selfies_to_encoding(selfies, vocab_stoi, pad_to_len,", "        one_hot = selfies_to_encoding(selfies, vocab_stoi, -1,")], ["U4"]),
         op("remove-enc-type-check", "fire", [(U, "    if enc_type not in (\"label\", \"one_hot\"):\n        raise ValueError(\"enc_type must be in ('label', 'one_hot')\")\n", "")], ["U1"]),
         op("get-with-default", "fire", [(U, "        integer_encoded.append(vocab_stoi[char])", "        integer_encoded.append(vocab_stoi.get(char, 0))")], ["U2"]),
@@ -251,6 +269,8 @@ OPS = {
         op("no-reverse", "fire", [(G, "    return symbols[::-1]", "    return symbols")], ["I5"]),
     ],
     "C17": [
+        op("encoder-offset-from-last-map", "fire", [(E, "        attribution_index += len(derived)", "        attribution_index = attribution_maps[-1].index + 1")], ["TE5"]),
+        op("memoised-parse", "fire", [(S, "def smiles_to_mol(smiles: str, attributable: bool) -> MolecularGraph:", "import functools\n\n\n@functools.lru_cache(maxsize=256)\ndef smiles_to_mol(smiles: str, attributable: bool) -> MolecularGraph:")], ["NI"]),
         op("dash-not-counted-as-bond-token", "fire", [(S, "    is_root = (prev_atom is None)\n    if bond_char:\n        i += 1", "    is_root = (prev_atom is None)\n    if bond_char and bond_char != \"-\":\n        i += 1")], ["TE4"]),
         op("bond-token-test-spelled-is-not-none", "silent", [(S, "    is_root = (prev_atom is None)\n    if bond_char:\n        i += 1", "    is_root = (prev_atom is None)\n    if bond_char is not None:\n        i += 1")]),
         op("root-depends-on-attributable", "fire", [(M, "        if mark_root:\n            self._roots.append(atom.index)", "        if mark_root and not (self._attributable and len(self) > 50):\n            self._roots.append(atom.index)")], ["NI"]),
@@ -279,6 +299,8 @@ OPS = {
         op("offset-accumulated-in-two-steps", "silent", [(D, "        attribution_index += n\n", "        consumed = n\n        attribution_index = attribution_index + consumed\n")]),
     ],
     "C18": [
+        op("rejected-symbol-cached-as-none", "fire", [(G, "        output = _process_atom_selfies_no_cache(symbol)\n        if output is None:\n            return None\n        _PROCESS_ATOM_CACHE[symbol] = output",
+                                                           "        output = _process_atom_selfies_no_cache(symbol)\n        _PROCESS_ATOM_CACHE[symbol] = output\n        if output is None:\n            return None")], ["M6"]),
         op("ring-symbol-not-validated-in-state-0", "fire", [(D, '            output = process_ring_symbol(symbol)\n            if output is None:\n                _raise_decoder_error(selfies, symbol)\n            ring_type, n, stereo = output\n\n            if state == 0:\n                next_state = state\n            else:\n                ring_order, next_state = next_ring_state(ring_type, state)', '            if state == 0:\n                next_state = state\n            else:\n                output = process_ring_symbol(symbol)\n                if output is None:\n                    _raise_decoder_error(selfies, symbol)\n                ring_type, n, stereo = output\n                ring_order, next_state = next_ring_state(ring_type, state)')], ["M4"]),
         op("wrong-table-entry", "fire", [(C, '("[Branch{}_2]", "[=Branch{}]")', '("[Branch{}_2]", "[#Branch{}]")')], ["M1"]),
         op("modernize-regardless-of-flag", "fire", [(D, "            if compatible:\n                symbol = modernize_symbol(symbol)", "            symbol = modernize_symbol(symbol)")], ["M5"]),
@@ -286,6 +308,7 @@ OPS = {
         op("expl-with-brackets", "fire", [(C, "atom_to_smiles(atom, brackets=False)", "atom_to_smiles(atom, brackets=True)")], ["M3"]),
     ],
     "C19": [
+        op("recursion-limit-raised-in-call", "fire", [(E, "    if not mol.kekulize():", "    import sys\n    sys.setrecursionlimit(sys.getrecursionlimit() + 1)\n    if not mol.kekulize():")], ["H6"]),
         op("module-level-scratch-list", "fire", [(D, "    rings = []\n", "    rings = _RINGS\n    rings.clear()\n"), (D, "def decoder(", "_RINGS = []\n\n\ndef decoder(")], ["H1"]),
         op("mutable-default", "fire", [(D, "def _form_rings_bilocally(mol, rings):\n    rings_made = [0] * len(mol)", "def _form_rings_bilocally(mol, rings, seen=[]):\n    seen.append(1)\n    rings_made = [0] * len(mol)")], ["H1"]),
         op("class-level-attribute", "fire", [(M, "    def __init__(self, attributable=False):\n        self._roots = list()", "    _roots = list()\n\n    def __init__(self, attributable=False):\n        pass")], ["H1"]),
